@@ -103,6 +103,13 @@ CHECKS.update({
         engine="E1-tlc + E2-cases", ref="DESIGN.md 6 C20"),
 })
 
+CHECKS.update({
+    "C18": dict(
+        text="Snapshot mode is part of spec/Rapid.tla: restore routes of the runtime automaton (RestoreReady / Restoring / RestoreError), handleRestore (credential update, restore renderer, release of a parked runtime, wait with the hook deadline, first-fatal override, RestoreRuntimeDone event), the credentials endpoint keyed by the per-instance token. Scenarios enumerate the orders of {restore request, restore poll, hook completion, restore/error, init/error, hook timeout, runtime exit}, a runtime that never enters the restore poll, repeated restores, credentials with right / wrong / no token, and plain mode; TLC validates the stamped traces (outcome class, timeout not before the hook timeout and at most 500 ms after it, credentials label of the latest restore, no credentials in the Exec environment).",
+        note=SCEN_NOTE, technique="TLA+ spec + TLC validation of stamped full-stack traces in init-caching mode",
+        engine="E4-scenarios + E3-trace", ref="DESIGN.md 6 C18"),
+})
+
 NA = {
 }
 
